@@ -88,6 +88,13 @@ CHECKS = {
         "note": TB + "sequentially consistent atomics; only properly nested (LIFO) context switches - other interleavings are outside the claim; clock arbitrary but non-decreasing.",
         "technique": "Kani/CBMC bounded model checking of the verbatim breaker; interleavings encoded as nondeterministic nested operations at every atomic access",
     },
+    "C13": {
+        "text": "Bounded model checking of the verbatim AppConfig::{assigned_buckets, assigned_partitions, node_count} (sierradb-server) against the verbatim "
+                "TopologyManager::calculate_assigned_partitions (sierradb-topology): for each of the 24 (N <= 4, buckets <= 6) pairs (6 in the quick tier), every node index, partition count <= 8 "
+                "and replication factor <= 4 accepted by the placement-relevant validation rules, and every partition: the node opens the partition's bucket for storage iff the topology routes the partition to it.",
+        "note": TB + "mock AppConfig with only the fields the sliced methods read; validation rules restated in the harness; HashSet -> 64-bit bit set; explicit bucket/partition id lists and clusters beyond the bounds are outside ('sampled for large clusters' is not done - this technique does not sample).",
+        "technique": "Kani/CBMC bounded model checking of verbatim slices of the config and topology placement rules, compared against each other",
+    },
     "C14": {
         "text": "PARTIAL claim (the placement arithmetic; membership-event ordering is outside): bounded model checking of the verbatim TopologyManager::calculate_partition_replicas / "
                 "calculate_assigned_partitions. For each of the 24 (N <= 4, buckets <= 6) pairs, all partition counts <= 8 and rf <= 4: exactly min(rf,N) pairwise distinct replicas starting at "
@@ -139,8 +146,6 @@ NOT_APPLICABLE.update({
            "lengths and start offset concrete (harness kept as harness/seglog/c05.rs, not registered); hydration of the indexes (K2) needs the sierradb indexes - nothing claimed",
     "C07": "attempted, no verdict: the verbatim handle_partition_read_locally / handle_stream_read_locally slices (async closures on tokio::spawn, run with kani::block_on over a 3-event mock log) did not terminate in 25 min "
            "even for a fully concrete witness harness (harness kept as harness/c07, not registered); AtomicWatermark::can_read is decided under C08 - nothing else claimed",
-    "C13": "attempted, no verdict: the verbatim AppConfig::assigned_buckets/assigned_partitions vs calculate_assigned_partitions comparison (harness/topo, c13_placement_*) timed out at 15 min per (N,B) instance; "
-           "reading the code says the two placement rules differ whenever buckets > nodes and rf < nodes (contiguous ranges vs round robin), but no check here decides it - nothing claimed",
     "C19": "not reached: the size estimate is inline in Worker::handle_append_events and needs the bincode-encoded record sizes; no harness built - nothing claimed",
     "C21": "not reached: the command parsers are `combine` parser combinators over heap strings (weak solver target); no harness built - nothing claimed",
 })
